@@ -83,7 +83,7 @@ fn avp_len_checks(a: &SAvp, e: &[u8], gl: usize) -> Res {
     Ok(())
 }
 
-fn abbreviate(a: &SAvp) -> SAvp {
+pub fn abbreviate(a: &SAvp) -> SAvp {
     let cut = |v: &Vec<u8>| -> Vec<u8> {
         if v.len() > 40 {
             let mut d = v[..16].to_vec();
